@@ -234,6 +234,7 @@ class Interp:
         self.max_paths = max_paths
         self.inline_filter = inline_filter
         self.axioms = axioms
+        self.summaries: Dict[str, Callable] = {}  # bare function name -> summary(interp, state, fn, args, node) -> value
         self.invariants = False  # Houdini order invariants on loops (opt-in: costs a few entailment queries per loop)
         self.n = 0
         self.allocs: Dict[str, Tuple] = {}
@@ -281,7 +282,7 @@ class Interp:
             s = st.heap[i]
             if s.root != root:
                 continue
-            if s.havoc_id is not None:
+            if s.havoc_id is not None and not s.idx:
                 return Aff.atom(("hav", s.havoc_id, root, idx))
             verdict: Optional[bool] = True
             n = min(len(s.idx), len(idx))
@@ -296,6 +297,8 @@ class Interp:
                 continue
             if verdict is None:
                 return self.fresh("unk")
+            if s.havoc_id is not None:
+                return Aff.atom(("hav", s.havoc_id, root, idx))
             if len(s.idx) > len(idx):
                 # partial overwrite of the loaded aggregate: not a scalar any more
                 return self.fresh("unk")
@@ -342,9 +345,10 @@ class Interp:
         self.stored_roots.append(target.root)
         self.ev(st, "store", node, root=target.root, idx=target.idx, value=value, aug=aug, old=old)
 
-    def havoc_root(self, st: State, root: str) -> None:
+    def havoc_root(self, st: State, root: str, prefix: Tuple[Any, ...] = ()) -> None:
+        """Forget the contents of root[prefix...] (the whole array when prefix is empty)."""
         self.n += 1
-        st.heap.append(Store(root, (), None, havoc_id=self.n))
+        st.heap.append(Store(root, tuple(prefix), None, havoc_id=self.n))
 
     def scalar(self, st: State, v: Any) -> Aff:
         if isinstance(v, Aff):
@@ -1299,6 +1303,10 @@ class Interp:
         return get_effects(self.p).modified_positions(members)
 
     def call_user(self, fn: FuncInfo, args: List[Any], kwargs, st: State, node: ast.Call) -> List[Tuple[State, Any]]:
+        if fn.name in self.summaries:
+            ev = self.ev(st, "call", node, name=fn.fq, args=tuple(args), kwargs=kwargs, value="summary")
+            ev.ret = self.summaries[fn.name](self, st, fn, args, node)
+            return [(st, ev.ret)]
         opaque = fn.name in self.no_inline
         recursive = any(f.fq == fn.fq for f in self.cur_fn)
         too_deep = len(self.cur_fn) >= self.max_depth
